@@ -128,6 +128,7 @@ func initRightOpenRange() {
 	RegisterNativeClass("Std::RightOpenRange", "value.RightOpenRangeClass")
 
 	RightOpenRangeIteratorClass = NewClass()
+	RightOpenRangeIteratorClass.IncludeMixin(ResettableIteratorBaseMixin)
 	RightOpenRangeClass.AddConstantString("Iterator", Ref(RightOpenRangeIteratorClass))
 	RegisterNativeClass("Std::RightOpenRange::Iterator", "value.RightOpenRangeIteratorClass")
 }
